@@ -1,6 +1,32 @@
-(* Ops/C06.v — protocol entry points for property C06 (stub until the model is built). *)
-From Coq Require Import List String.
-From PrefVerif Require Import Lib.Val.
+(* Ops/C06.v — protocol entry points for property C06 (scoring rules).
+   instance payload: (dt alts n_alt n_vot prof), dt: 0 soc, 1 soi, 2 toc, 3 toi, 4 cat, other = any other type;
+   prof = ((order mult) ...), order = ((a ...) ...).  k-approval payload: (instance k). *)
+From Coq Require Import List ZArith NArith String.
+From PrefVerif Require Import Lib.Val Model.Scoring.
 Import ListNotations.
+Open Scope string_scope.
 
-Definition ops : optable := [].
+Definition d_dtype (v : val) : dtype :=
+  match dnat v with 0 => Soc | 1 => Soi | 2 => Toc | 3 => Toi | 4 => Cat | _ => DOther end.
+Definition d_order (v : val) : order := dlist (dlist dN) v.
+Definition d_inst (v : val) : inst :=
+  {| dt := d_dtype (dnth 0 v); alts := dlist dN (dnth 1 v); n_alt := dN (dnth 2 v); n_vot := dN (dnth 3 v);
+     prof := dlist (dpair d_order dN) (dnth 4 v) |}.
+
+Definition e_winners (r : result (list N)) : val := eresult (elist eN) r.
+
+(* every rule on one instance: (instance (k ...)) -> (plurality veto borda copeland approval sav kapp_k ...) *)
+Definition op_all (v : val) : val :=
+  let i := d_inst (dnth 0 v) in
+  VL ([ e_winners (plurality_winner i); e_winners (veto_winner i); e_winners (borda_winner i);
+        e_winners (copeland_winner i); e_winners (approval_winner i); e_winners (sav_winner i) ]
+      ++ map (fun k => e_winners (k_approval_winner i k)) (dlist dnat (dnth 1 v))).
+
+Definition ops : optable :=
+  [ ("c06.all", op_all); ("c06.plurality", fun v => e_winners (plurality_winner (d_inst v)));
+    ("c06.veto", fun v => e_winners (veto_winner (d_inst v)));
+    ("c06.kapp", fun v => e_winners (k_approval_winner (d_inst (dnth 0 v)) (dnat (dnth 1 v))));
+    ("c06.borda", fun v => e_winners (borda_winner (d_inst v)));
+    ("c06.copeland", fun v => e_winners (copeland_winner (d_inst v)));
+    ("c06.approval", fun v => e_winners (approval_winner (d_inst v)));
+    ("c06.sav", fun v => e_winners (sav_winner (d_inst v))) ].
